@@ -304,6 +304,63 @@ def r04_3(prog, out):
         out.holds("ack_deadline-immutable", "", "SubscriptionInfo.ack_deadline is only set by the constructor")
 
 
+def shifts_deadline(prog, sl, s):
+    """one of the additions / subtractions in the slice has the schedule's deadline as an operand (as opposed to bookkeeping like
+    `next_sweep = now + INTERVAL` that the flow-insensitive slice of `self` drags in)"""
+    for (sb, sbb) in s.sites:
+        si = prog.info(sb)
+        t = si.call_at(sbb) if si is not None else None
+        if t is None or t.callee is None or not ("ops::Add" in t.callee.path or "checked_add" in t.callee.path or "ops::Sub" in t.callee.path):
+            continue
+        for a in t.args:
+            sa = sl.of(sb, a)
+            if any("BTreeSet" in c and c.endswith("::first") for c in sa.calls) or any(f[1] == "deadline" or f[1] == "time" for f in sa.fields):
+                return True
+    return False
+
+
+def sweep_cap(prog, sl, R):
+    """the function that takes due deliveries off the schedule stops after a fixed number of them (a count compared with a
+    constant decides a way out of / around its pop): location, or None"""
+    for pid, e in expiry_popper(prog, R):
+        pi = prog.info(pid)
+        for blk in pi.body.blocks:
+            if blk.cleanup or blk.idx not in pi.cfg.reach or blk.term.k != "switch" or blk.term.discr is None or blk.term.discr.place is None:
+                continue
+            sd = sl.of(pid, blk.term.discr)
+            if any(c.split("::")[-1] == "len" and ("Vec" in c or "VecDeque" in c) for c in sd.calls) and \
+                    (any(isinstance(c, int) and c > 1 for c in sd.consts) or any(isinstance(c, str) and c in prog.facts.consts and prog.facts.consts[c].get("ty") == "usize" for c in sd.consts)):
+                if pi.cfg.can_reach(blk.idx, e.bb) or pi.cfg.can_reach(e.bb, blk.idx):
+                    return pi.loc(blk.idx)
+    return None
+
+
+def bounded_pause(prog, sl, bi, x):
+    """the await `x` is `sleep_until(t)` / `sleep(d)` where t = (a clock reading) + (a constant duration), d = a constant duration:
+    seconds of the constant; None when it is such a pause but the constant is not resolved; False when it is anything else"""
+    from common import await_class
+    from props.c05 import duration_const_secs
+    o = x.origin
+    if o is None or o.kind != "call":
+        return False
+    t = bi.call_at(o.data)
+    if t.callee is None or t.callee.path not in ("tokio::time::sleep_until", "tokio::time::sleep") or not t.args:
+        return False
+    s = sl.of(bi.body.id, t.args[0])
+    names = {c.split("::")[-1] for c in s.calls if not (c.startswith("crate::") or c.startswith("<crate::"))}
+    if any("BTreeSet" in c for c in s.calls) or any(f[1] in ("deadline", "time") for f in s.fields):
+        return False
+    if not names <= {"now", "add", "from_millis", "from_secs", "from_micros", "into", "from", "checked_add", "unwrap_or", "deref", "clone"}:
+        return False
+    best = None
+    for c in s.consts:
+        if isinstance(c, str) and c in prog.facts.consts and prog.facts.consts[c].get("ty") == "std::time::Duration":
+            vs = duration_const_secs(prog, prog.facts.consts[c], whole_seconds_only=False)
+            if vs:
+                best = max(best or 0.0, float(max(vs)))
+    return best
+
+
 @rule("C04", "R04.4", "the expiry timer is armed on the earliest deadline and re-armed whenever the schedule changes", floor=4)
 def r04_4(prog, out):
     R = roles(prog)
@@ -338,7 +395,7 @@ def r04_4(prog, out):
             out.undecided(key + ":armed-on-first", bi.loc(sleep_br.origin.data), "timer built with %s" % t.callee.path)
         elif lasts or not firsts:
             out.violation(key + ":armed-on-first", bi.loc(sleep_br.origin.data), "the expiry timer is not armed on the earliest deadline of the schedule: earlier deliveries are redelivered late")
-        elif arith:
+        elif arith and shifts_deadline(prog, sl, s):
             out.violation(key + ":armed-on-first", bi.loc(sleep_br.origin.data), "the expiry timer is armed on a shifted instant (%s)" % arith[0].split("::")[-1])
         else:
             out.holds(key + ":armed-on-first", bi.loc(sleep_br.origin.data), "sleep_until(first deadline of the schedule)")
@@ -376,8 +433,19 @@ def r04_4(prog, out):
     # expiry check precedes the wait in every iteration
     removers_called = [bb for bb, t in bi.calls(lambda c: prog.qual(bi.body, c.target) in {p for p, _ in expiry_popper(prog, R)})]
     k = key + ":check-before-wait"
-    if removers_called and all(bi.cfg.dominates(removers_called[0], x.poll_bb) for x in bi.awaits):
+    early = [x for x in bi.awaits if not (removers_called and bi.cfg.dominates(removers_called[0], x.poll_bb))]
+    pauses = [(x, bounded_pause(prog, sl, bi, x)) for x in early]
+    if removers_called and not early:
         out.holds(k, bi.loc(removers_called[0]), "each iteration takes expired deliveries before it waits")
+    elif removers_called and all(p is not None and p is not False and p < 1.0 for _x, p in pauses) and sweep_cap(prog, sl, R):
+        cap_loc = sweep_cap(prog, sl, R)
+        out.violation(k, bi.loc(early[0].poll_bb), "every sweep of the schedule is preceded by a pause and takes at most a fixed number of due deliveries (%s): when more "
+                      "than that are due, the rest wait another pause each round -- the lateness grows with the number of deliveries instead of being a fixed slack" % cap_loc)
+    elif removers_called and all(p is not None and p is not False and p < 1.0 for _x, p in pauses):
+        out.holds(k, bi.loc(removers_called[0]), "each iteration takes expired deliveries before it waits for the schedule; the only wait in front of that is a pause of "
+                  "a constant %.3f s from the previous sweep (a fixed sub-second slack)" % max(p for _x, p in pauses))
+    elif removers_called and all(p is not False for _x, p in pauses):
+        out.undecided(k, bi.loc(early[0].poll_bb), "a pause of a length the analysis cannot bound stands in front of taking the deliveries that are due")
     else:
         out.violation(k, bi.loc(a.poll_bb), "an iteration can wait without first taking the deliveries that are already due")
     # every mutator of the schedule notifies
